@@ -22,6 +22,10 @@ Pairs == { <<Oct(n), a>> : n \in OctLens, a \in HSAlgs } \cup OctAttr \cup OctPa
     \cup { <<AsymKey(b, 1, NONE, NONE), a>> : b \in EcBases, a \in ESAlgs }
     \cup { <<AsymKey(b, 1, NONE, NONE), "EdDSA">> : b \in OkpBases }
 
+\* keys whose import FAILED (no size, no key object) handed to the operation: never a success
+BadPairs == { <<WithDefect(AsymKey("rsa2048a", 1, NONE, NONE), "e", "absent"), "RS256">>, <<WithDefect(AsymKey("rsa1024a", 1, NONE, NONE), "n", "notb64"), "PS256">>,
+              <<WithDefect(AsymKey("p384a", 1, NONE, NONE), "y", "offcurve"), "ES384">>, <<WithDefect(AsymKey("p256a", 1, NONE, NONE), "crv", "unknownstr"), "ES256">>,
+              <<WithDefect(AsymKey("ed25519a", 1, NONE, NONE), "crv", "unknownstr"), "EdDSA">>, <<WithDefect(AsymKey("ed448a", 1, NONE, NONE), "x", "short"), "EdDSA">> }
 Pub(k) == IF k.kty = "oct" THEN k ELSE [k EXCEPT !.priv = 0]
 Pm == << StrM("sub", "x") >>
 Script(k, a, p) ==
@@ -63,7 +67,7 @@ ReuseScripts ==
                Via(f2, a), VerifyOp(Tok(a, <<>>, Pm, Sig("valid", a, Pub(kn[1])))), VerifyOp(Tok(kn[2], <<>>, Pm, Sig("valid", kn[2], Pub(kn[1])))) >>
             : a \in Bigger(kn[2]), f1 \in {"setkey", "cb"}, f2 \in {"setkey", "cb"} }
           : kn \in ReuseKeys, p \in Providers }
-C09Scripts == { Script(ka[1], ka[2], p) : ka \in Pairs, p \in Providers } \cup ReuseScripts
+C09Scripts == { Script(ka[1], ka[2], p) : ka \in Pairs \cup BadPairs, p \in Providers } \cup ReuseScripts
               \cup { CbScript(ka[1], ka[2], p) : ka \in Pairs, p \in Providers }
               \cup { CrossScript(ka[1], ka[2], p) : ka \in CrossPairs, p \in Providers }
 MCSpec == ISpecWith(C09Scripts)
